@@ -177,6 +177,13 @@ def str_cases():
         chars = ','.join(str(ord(c)) for c in body)
         cases.append(('STRING', f"'{body}'", f'str {chars}', 'str'))
         cases.append(('STRING', f"STRING#'{body}'", f'str {chars}', 'str-typed'))
+    # the other kind of quote is an ordinary character, also first and last
+    for body in ['"quoted"', '"', '""', 'say "hi"', '"a', 'a"', '""x""']:
+        chars = ','.join(str(ord(c)) for c in body)
+        cases.append(('STRING', f"'{body}'", f'str {chars}', 'str-dquote-inside'))
+    for body in ["'quoted'", "'", "''", "it's'", "'a", "a'"]:
+        chars = ','.join(str(ord(c)) for c in body)
+        cases.append(('WSTRING', f'"{body}"', f'str {chars}', 'wstr-squote-inside'))
     for body in ['', 'w', 'wide é', "a'b"]:
         chars = ','.join(str(ord(c)) for c in body)
         cases.append(('WSTRING', f'"{body}"', f'str {chars}', 'wstr'))
